@@ -220,10 +220,22 @@ let has_high_escape (cps : n list) : bool =
   !found
 
 (* RapidJSON copies the bytes of a string without validating them: bytes as characters *)
+(* targets #37..#41 hold wide strings (u16string, u32string, wstring): the archive layer transcodes the loaded UTF-8,
+   which fails (UtfEncodingError, default policy) when the bytes are not well-formed; map keys stay std::string *)
+let wide_idx = ref false
+let rec value_strings (v : val0) : n list list =
+  match v with
+  | VStr s -> [s]
+  | VArr l -> List.concat_map value_strings l
+  | VObj m -> List.concat_map (fun (_, x) -> value_strings x) m
+  | _ -> []
+
 let json_load_raw8 (t : ty) (pol : string) (bytes8 : n list) : string =
   if has_high_escape bytes8 then "UNMODELLED"
   else match load_json_text strtod_oracle i2d_oracle (opts_of pol) t bytes8 with
-    | Ok v -> "OK " ^ fmt_value_raw v
+    | Ok v ->
+      if !wide_idx && List.exists (fun s -> utf8_to_cps s = None) (value_strings v) then "EXC:UtfEncodingError"
+      else "OK " ^ fmt_value_raw v
     | Err e -> "EXC:" ^ err_name e
 
 (* RapidJSON streams signal their end by '\000': a NUL character after the root value ends the document *)
@@ -244,6 +256,7 @@ let load_text_rj (t : ty) (pol : string) (cps : n list) : outcome =
    source encoding: every code unit reaches the reader truncated to one byte (finding F27) *)
 let json_load medium enc idx pol hex : string =
   let t = get_type idx in
+  wide_idx := (let i = int_of_string idx in i >= 37 && i <= 41);
   let bytes = if hex = "-" then [] else parse_hexbytes hex in
   if medium = "mem" then begin
     if starts_with (bom_of "utf8") bytes then "EXC:ParsingError"
@@ -311,14 +324,38 @@ module Xmlops = struct
     let f = Int64.float_of_bits (Int64.of_string ("0x" ^ hex_of_n bits)) in
     codes_of_string (Printf.sprintf "%.17g" f)
 
-  (* std::from_chars(double) on the text (prefix semantics are not needed for the texts the archive writes) *)
+  (* std::from_chars(double, general) on the text: the longest prefix that is a number ("inf", "nan" included) *)
   let xstrtod_oracle (text : n list) : n option =
     let s = string_of_codes text in
-    let ok = String.length s > 0 && (match s.[0] with '0'..'9' | '-' | '.' | 'n' | 'i' | 'N' | 'I' -> true | _ -> false) in
-    if not ok then None else
-    match float_of_string_opt s with
-    | Some f -> Some (n_of_int64_bits (Int64.bits_of_float f))
-    | None -> None
+    let n = String.length s in
+    let digit i = i < n && s.[i] >= '0' && s.[i] <= '9' in
+    let rec digits i = if digit i then digits (i + 1) else i in
+    let p0 = if n > 0 && s.[0] = '-' then 1 else 0 in
+    let lower_at i w = i + String.length w <= n && String.lowercase_ascii (String.sub s i (String.length w)) = w in
+    let fin e = match float_of_string_opt (String.sub s 0 e) with
+      | Some f -> Some (n_of_int64_bits (Int64.bits_of_float f)) | None -> None in
+    if lower_at p0 "infinity" then fin (p0 + 8)
+    else if lower_at p0 "inf" then fin (p0 + 3)
+    else if lower_at p0 "nan" then fin (p0 + 3)
+    else begin
+      let i1 = digits p0 in
+      let (mant_end, has_digits) =
+        if i1 < n && s.[i1] = '.' then (let i2 = digits (i1 + 1) in ((if i2 > i1 + 1 || i1 > p0 then i2 else i1), i2 > i1 + 1 || i1 > p0))
+        else (i1, i1 > p0) in
+      if not has_digits then None
+      else begin
+        let e =
+          if mant_end < n && (s.[mant_end] = 'e' || s.[mant_end] = 'E') then begin
+            let j = if mant_end + 1 < n && (s.[mant_end + 1] = '+' || s.[mant_end + 1] = '-') then mant_end + 2 else mant_end + 1 in
+            let k = digits j in
+            if k > j then k else mant_end
+          end else mant_end in
+        (* "1." is accepted by from_chars as 1; OCaml reads it as well *)
+        match float_of_string_opt (String.sub s 0 e) with
+        | Some f -> if Float.abs f = Float.infinity then None else Some (n_of_int64_bits (Int64.bits_of_float f))
+        | None -> None
+      end
+    end
 
   let key_opt (k : string) : n list option = if k = "-" then None else Some (codes_of_string k)
 
